@@ -1,7 +1,7 @@
 (* Proofs/BmmReset.v -- what BatchMemoryManager's clean-up (generated drop_unfinished_logical_batch, run at the start of every iteration of
    the splitting sampler and at __exit__) does to the optimizer ledger (C10 / C11). *)
 From Coq Require Import ZArith List Bool.
-From OV Require Import Base.Num Base.Py Model.OptimState Model.OptimRef Gen.Optim Proofs.OptimSM Proofs.OptimEq.
+From OV Require Import Base.Num Base.Py Model.OptimState Model.OptimRef Gen.Optim Proofs.OptimSM Proofs.OptimEq Proofs.OptimTrace.
 Import ListNotations.
 Section R.
 Context {T : Type} {N : Num T}.
@@ -40,3 +40,32 @@ Corollary after_cleanup_as_from_clean_queue (s : ost T) (q : list bool) (ops : l
   run ops (ref_drop (upd_skipq s q)) = run ops (ref_drop (upd_skipq s [])).
 Proof. now rewrite (stale_signals_irrelevant s q []). Qed.
 End R.
+
+Section A.
+Context {T : Type} {N : Num T}.
+Hypothesis neqb_sound : forall a b : T, neqb a b = true -> a = b.
+(* the clean-up writes no accountant record and no event: the ledger invariant survives it, so accounting stays exact over any number of
+   iterations of the memory manager's loader, complete or abandoned *)
+Lemma cleanup_keeps_ledger (s : ost T) : Ledger s -> Ledger (ref_drop s).
+Proof.
+  intros L. destruct (drop_post s) as (_ & _ & _ & E & H & _).
+  eapply ledger_quiet; [| | exact H | exact E | exact L]; unfold ref_drop; cbn [o_last_skipped upd_skipq];
+    destruct (o_last_skipped s); reflexivity.
+Qed.
+Theorem accounting_exact_across_cleanups v a nm mgn ebs rate mean secure accum (epochs : list (list (@op T))) :
+  a <> AccGDP ->
+  let s := fold_left (fun s ops => ref_drop (run ops s)) epochs (init_state v a nm mgn ebs rate mean secure accum) in
+  expand (o_hist s) = acc_list (o_events s) /\ wo false (o_events s) = true /\
+  count_inner (o_events s) = List.length (expand (o_hist s)).
+Proof.
+  intros Ha s.
+  assert (L : Ledger s).
+  { subst s. assert (L0 : Ledger (init_state v a nm mgn ebs rate mean secure accum)).
+    { unfold Ledger, init_state. cbn. repeat split; auto. constructor. }
+    revert L0. generalize (init_state v a nm mgn ebs rate mean secure accum).
+    induction epochs as [|ops eps IH]; intros s0 L0; [exact L0|]. cbn [fold_left]. apply IH.
+    apply cleanup_keeps_ledger. now apply (run_ledger neqb_sound). }
+  destruct L as (_ & _ & _ & HX & HW). split; [exact HX|]. split; [exact HW|].
+  pose proof (wo_counts false _ HW) as C. rewrite HX, C. apply Nat.add_0_r.
+Qed.
+End A.
